@@ -182,13 +182,34 @@ Definition base_wiring (m : method) : wiring :=
   end.
 
 (* gerror.gotmpl:41-165 (repaired: the SrcS stanza passes src) *)
-Definition ext_wiring (m : method) : wiring := base_wiring m.
+Definition ext_wiring (m : method) : wiring :=
+  match m with
+  | MBase        => mkW false NoStack      AEmpty AEmpty AEmpty ENil
+  | MSourceOnly  => mkW false SourceStack  AEmpty AEmpty AEmpty ENil
+  | MStack       => mkW false DefaultStack AEmpty AEmpty AEmpty ENil
+  | MSrc         => mkW false SourceStack  AEmpty ASrc   AEmpty ENil
+  | MDTag        => mkW false SourceStack  ADTag  AEmpty AEmpty ENil
+  | MMsg         => mkW false SourceStack  AEmpty AEmpty AFmt   ENil
+  | MSrcDTagMsg  => mkW false SourceStack  ADTag  ASrc   AFmt   ENil
+  | MSrcDTag     => mkW false SourceStack  ADTag  ASrc   AEmpty ENil
+  | MSrcMsg      => mkW false SourceStack  AEmpty ASrc   AFmt   ENil
+  | MDTagMsg     => mkW false SourceStack  ADTag  AEmpty AFmt   ENil
+  | MSrcS        => mkW false DefaultStack AEmpty ASrc   AEmpty ENil
+  | MDTagS       => mkW false DefaultStack ADTag  AEmpty AEmpty ENil
+  | MMsgS        => mkW false DefaultStack AEmpty AEmpty AFmt   ENil
+  | MSrcDTagMsgS => mkW false DefaultStack ADTag  ASrc   AFmt   ENil
+  | MSrcDTagS    => mkW false DefaultStack ADTag  ASrc   AEmpty ENil
+  | MSrcMsgS     => mkW false DefaultStack AEmpty ASrc   AFmt   ENil
+  | MDTagMsgS    => mkW false DefaultStack ADTag  AEmpty AFmt   ENil
+  | MConvert     => mkW true  SourceStack  AEmpty AEmpty AOrig  EErr
+  | MConvertS    => mkW true  DefaultStack AEmpty AEmpty AOrig  EErr
+  end.
 
 (* the pinned template: `SrcS(src string)` calls CloneBase(e, DefaultStack, "", "", "", nil) *)
 Definition ext_wiring_orig (m : method) : wiring :=
   match m with
   | MSrcS => mkW false DefaultStack AEmpty AEmpty AEmpty ENil
-  | _ => base_wiring m
+  | _ => ext_wiring m
   end.
 
 (* actual arguments of one method call; a method uses only its own parameters *)
